@@ -2,6 +2,9 @@ import Firefly.Model.Spin
 import Firefly.Proof.Spin
 import Firefly.Proof.SpinInv
 import Firefly.Proof.SpinRun
+import Firefly.Proof.SpinRefinesLock
+import Firefly.Proof.SpinLockedSim
+import Firefly.Proof.SpinClients
 /-!
 # C08 — Spinlock gives mutual exclusion; try-acquire never lies
 
@@ -201,6 +204,78 @@ theorem deadlock_free {cfg : Config} {n : Nat} {s : State} (hr : Reachable cfg n
     obtain ⟨chs, sh', t', hlen, hrun, h0⟩ := owner_can_free cfg s.sh t hL ho
     exact ⟨chs, _, hlen, runSched_solo cfg i chs s t sh' t' hi hrun, h0⟩
 
+/-- **spin_refines_abstract_lock** — forward simulation from the spin-lock machine (regenerated
+programs, any number of threads, any schedule, clients that Release only while holding) to the
+abstract lock that C09's `Model/Locked.lean` builds on (`absStep`: `holder : Option Nat`; `acq i`
+enabled only while `holder = none`; `rel i` only for the holder).  The visible event of a machine
+step is read off the lock word (`evOf`: 0→nonzero is `acq i`, nonzero→0 is `rel i`, else `tau`); the
+abstraction `Abs s h` says that `h` is the unique `Owner`.
+(1) initially nobody holds; (2) every step of every thread is matched by the abstract lock on its
+event — the winning `XCHGL` / successful `TryToAcquire` swap by `acq`, the `Release` store by `rel`,
+everything else by a stutter — and re-establishes the abstraction; (3) hence the event trace of
+every execution is a trace of the abstract lock; (4) a thread that is inside its critical section
+(`held`) is the abstract holder; (5) every step of the Locked machine moves its `holder` field by
+such an abstract-lock step (the interface is the same). -/
+theorem spin_refines_abstract_lock (cfg : Config) (n : Nat) :
+    Abs (init n) none ∧
+    (∀ {s s' : State} {i : Nat} {ch : Choice} {h : Option Nat}, Reachable cfg n s → Abs s h →
+      step cfg s i ch = some s' → ∃ h', absStep h (evOf s s' i) = some h' ∧ Abs s' h') ∧
+    (∀ {evs : List LockEv} {s : State}, Exec cfg (init n) evs s →
+      ∃ hd, absRun none evs = some hd ∧ Abs s hd) ∧
+    (∀ {s : State} {h : Option Nat} {i : Nat} {t : Thread}, Reachable cfg n s → Abs s h →
+      s.threads[i]? = some t → t.held = true → h = some i) ∧
+    (∀ {σ ρ O : Type} (S : Locked.Sys σ ρ O) (s s' : Locked.State σ ρ O) (i : Nat),
+      Locked.step S s i = some s' →
+      absStep s.holder (.acq i) = some s'.holder ∨ absStep s.holder (.rel i) = some s'.holder ∨
+      (s.holder = some i ∧ s'.holder = some i)) :=
+  ⟨abs_init n, fun hr ha hs => sim_step (reachable_inv hr) ha hs, fun h => exec_refines h,
+   fun hr ha hi hh => held_is_abs_holder (reachable_inv hr) ha hi hh,
+   fun S s s' i h => locked_step_is_abslock S s s' i h⟩
+
+/-- **spin_lock_substitutes** — the composition.  `cstep` (Proof/SpinLocked.lean) is C09's machine
+with the REAL lock program in place of the abstract lock: every thread loops `Acquire()`,
+micro-steps of its client's next operation on the shared object, `Release()`; micro-steps are taken
+between the return of `Acquire` and the call of `Release`, with no reference to an abstract holder.
+Every reachable state of that machine (any object, any clients, any number of threads, any schedule)
+projects (`proj`) to a reachable state of the machine of `Model/Locked.lean`; therefore every safety
+property proved for all reachable states of the Locked machine — `C09.linearizable`, and through it
+`no_duplicate`, `freed_is_reusable`, `totals_after_quiescence` — holds of the projection, with the
+spin lock of `/repo` substituted for the abstract lock. -/
+theorem spin_lock_substitutes {σ ρ O : Type} (S : Locked.Sys σ ρ O) (cfg : Config) (n : Nat) (s0 : σ)
+    {c : CState σ ρ O} (h : CReachable S cfg n s0 c) :
+    Locked.Reachable S s0 (proj c) ∧
+    ∀ P : Locked.State σ ρ O → Prop, (∀ s, Locked.Reachable S s0 s → P s) → P (proj c) :=
+  ⟨(creachable_proj S cfg n s0 h).2, fun _ hP => hP _ (creachable_proj S cfg n s0 h).2⟩
+
+/-- **clients_disciplined** — the tie between the code and the client shape `cstep` assumes.
+`Gen.C08.clients` is REGENERATED on every run: the lock skeleton (control flow + lock calls) of
+every function under `kernel/` that calls `Acquire`/`Release`/`TryToAcquire` on any field or
+variable of type `sync.Spinlock` (`Gen.C08.lockDecls`; today `BitmapAllocator.AllocFrame` and
+`FreeFrame`).  (1) every one of them passes the lock-discipline checker of `Model/Locked.lean`;
+(2) hence (soundness of the checker) on every control-flow path of every client, for any loop
+iteration counts, the function leaves by `return`/end of body and its lock calls are exactly
+`Acquire` then `Release` — taken once, released exactly once on every return path, never released
+un-acquired; (3) this is the shape the composed machine accepts: `cstep` lets a thread call
+`Acquire` only while outside (idle, not holding, no operation in progress), take micro-steps and
+call `Release` only between the return of `Acquire` and the call of `Release`, and nothing else. -/
+theorem clients_disciplined :
+    (∀ c ∈ Gen.C08.clients, Locked.disciplined c.2 = true) ∧
+    (∀ c ∈ Gen.C08.clients, ∀ (tr : List Locked.Ev) (x : Locked.Exit), Locked.Runs c.2 tr x →
+      (x = .fall ∨ x = .ret) ∧ lockCalls tr = [.acq, .rel]) ∧
+    (∀ {σ ρ O : Type} (S : Locked.Sys σ ρ O) (cfg : Config) (c c' : CState σ ρ O) (i : Nat),
+      (cstep S cfg c i (.lock .callAcquire) = some c' →
+        ∃ t, c.spin.threads[i]? = some t ∧ t.ph = .idle ∧ t.held = false ∧ (c.cl i).cur = none) ∧
+      (cstep S cfg c i (.lock .callRelease) = some c' →
+        ∃ t, c.spin.threads[i]? = some t ∧ t.ph = .idle ∧ t.held = true) ∧
+      (cstep S cfg c i .micro = some c' →
+        ∃ t, c.spin.threads[i]? = some t ∧ t.ph = .idle ∧ t.held = true) ∧
+      cstep S cfg c i (.lock .callTry) = none) := by
+  have h1 : ∀ c ∈ Gen.C08.clients, Locked.disciplined c.2 = true := by decide
+  exact ⟨h1, fun c hc tr x hr => disciplined_calls c.2 (h1 c hc) hr, fun S cfg c c' i => cstep_call_shape S cfg c c' i⟩
+
+/-- the scan found the clients (the statement above is not about an empty list) -/
+example : Gen.C08.clients.length ≥ 2 ∧ Gen.C08.lockDecls.length ≥ 1 := by decide
+
 /-! ## Non-vacuity: concrete schedules of the generated programs -/
 
 private theorem reach_of_run {cfg : Config} {n : Nat} {sched : List (Nat × Choice)} (p : State → Bool)
@@ -237,5 +312,31 @@ example : ∃ s, Reachable exCfg 2 s ∧
     (s.sh.lock == 1 && s.threads[1]?.any (fun t => t.ret == some false && !t.held) && s.threads[0]?.any (·.held)) = true :=
   reach_of_run _ (by decide :
     (runSched exCfg (init 2) (solo 0 acquireMoves ++ solo 1 tryMoves)).any _ = true)
+
+/-- a shared counter whose only operation is `tmp := x; x := tmp + 1` in two micro-steps -/
+def exSys : Locked.Sys Nat Nat Unit :=
+  { sem := fun _ => { init := 0, steps := [fun (x, _r) => (x, x), fun (_x, r) => (r + 1, r)] },
+    client := fun _ h => if h.length < 1 then some () else none }
+
+private theorem creach_of_run {σ ρ O : Type} {S : Locked.Sys σ ρ O} {cfg : Config} {n : Nat} {s0 : σ}
+    {sched : List (Nat × CMove)} (p : CState σ ρ O → Bool)
+    (h : (crunSched S cfg (cinit n s0) sched).any p = true) : ∃ c, CReachable S cfg n s0 c ∧ p c = true := by
+  cases hrun : crunSched S cfg (cinit n s0) sched with
+  | none => simp [hrun] at h
+  | some c => exact ⟨c, crunSched_reachable S cfg n s0 sched CReachable.init hrun, by simpa [hrun] using h⟩
+
+/-- The composed machine is not vacuous: two threads each run one operation through the real lock
+program (thread 1 loses the exchange and spins while thread 0 is inside); the projection is a
+reachable state of the Locked machine with both operations logged, the counter at 2, the lock free. -/
+example : ∃ c, CReachable exSys exCfg 2 0 c ∧
+    ((proj c).sh == 2 && (proj c).log.length == 2 && (proj c).holder == none &&
+     ((proj c).threads 1).hist.length == 1) = true :=
+  creach_of_run _ (by decide :
+    (crunSched exSys exCfg (cinit 2 0)
+      ([(0, .lock .callAcquire)] ++ List.replicate 9 (0, .lock .run) ++
+       [(1, .lock .callAcquire)] ++ List.replicate 12 (1, .lock (.havoc 7 7 7 7 false)) ++
+       [(0, .micro), (0, .micro), (0, .lock .callRelease), (0, .lock .run), (0, .lock .run)] ++
+       List.replicate 18 (1, .lock .run) ++
+       [(1, .micro), (1, .micro), (1, .lock .callRelease), (1, .lock .run), (1, .lock .run)])).any _ = true)
 
 end Firefly.C08
